@@ -400,6 +400,9 @@ func (tp *ethTxPool) promoteExecutables(addrs []common.Address) {
 			// pending is not full, add
 			if err := tp.pending[addr].Add(tx); err == nil {
 				pendingTxCount++
+			} else {
+				// it left the waiting queue and did not enter the pending queue: forget it
+				delete(tp.all, tx.Hash())
 			}
 		}
 	}
@@ -414,9 +417,16 @@ func (tp *ethTxPool) addWaiting(tx *etypes.Transaction, address common.Address) 
 	}
 	if waitingTxCount >= tp.waitingLimit {
 		// waiting queue is full, try replace or return err
-		if tp.waiting[address] == nil || !tp.waiting[address].TryReplace(tx) {
+		if tp.waiting[address] == nil {
 			return errTxPoolWaitingQueueIsFull
 		}
+		displaced, ok := tp.waiting[address].TryReplace(tx)
+		if !ok {
+			return errTxPoolWaitingQueueIsFull
+		}
+		// the displaced transaction is gone from the queues: it must leave the lookup cache too,
+		// or the cache grows without bound and the transaction can never be submitted again
+		delete(tp.all, displaced.Hash())
 	} else {
 		if tp.waiting[address] == nil {
 			tp.waiting[address] = newTxSortedMap()
